@@ -436,7 +436,46 @@ def _inplace(ctx, pid, observe_fetch):
 
 
 def c03(ctx):
-    return _inplace(ctx, "C03", False)
+    res = _inplace(ctx, "C03", False)
+    # in place AND a stdin seed: whatever stdin delivers must not disturb the re-ordering
+    t0 = time.time()
+    bita = ctx["bita"]
+    root = tempfile.mkdtemp(prefix="verif-c03s-")
+    viol = Viol("c03")
+    n = 0
+    try:
+        for li, (name, s, p) in enumerate(LAYOUTS + [("new-first-chunk", "NABC", "ABC"), ("new-middle-chunk", "ANBC", "CAB")]):
+            source, prior = words(s), words(p, 3)
+            d = os.path.join(root, f"l{li}")
+            os.makedirs(d)
+            src, arc = os.path.join(d, "src.bin"), os.path.join(d, "a.cba")
+            with open(src, "wb") as f:
+                f.write(source)
+            r = sh([bita, "compress", "--fixed-size", "4B", "--compression", "none", "-i", src, arc])
+            if r.returncode != 0:
+                raise RuntimeError("compress failed: " + r.stderr.decode())
+            seeds = sorted({ch for ch in s if ch != "-"}) + ["-", s]
+            for sw in seeds:
+                out = os.path.join(d, f"out-{n}.bin")
+                with open(out, "wb") as f:
+                    f.write(prior)
+                r = sh([bita, "clone", "--seed-output", "--seed", "-", arc, out], stdin_data=words(sw, 7))
+                n += 1
+                detail = {"layout": name, "source": s, "prior": p, "stdin_seed": sw}
+                if r.returncode != 0:
+                    detail["stderr"] = r.stderr.decode()[-300:]
+                    viol.add("valid-clone-failed" if r.returncode != 101 else "clone-panicked", detail)
+                elif open(out, "rb").read() != source:
+                    detail["output"] = open(out, "rb").read().hex()
+                    viol.add("success-with-wrong-output", detail)
+    finally:
+        shutil.rmtree(root, ignore_errors=True)
+    res["coverage"]["evaluations"] += n
+    res["coverage"]["stdin_seed_in_place_cases"] = n
+    res["coverage"]["rule"] += "; plus every layout x every single source word / junk / the whole source piped into `--seed -` together with --seed-output"
+    res["violation_classes"] += viol.list()
+    res["wall_s"] += time.time() - t0
+    return res
 
 
 def c06(ctx):
